@@ -11,7 +11,7 @@ from collections import Counter
 from typing import Any, Dict, Iterable, List
 
 from harness.core import Case, Finding, VERIF
-from harness.props._doc import DocCheck, Gen, r_doc, all_paths, node_at, random_mutation
+from harness.props._doc import DocCheck, Gen, r_doc, all_paths, node_at, random_mutation, mark_nonconformant
 from harness.props.c01 import read_doc, has_content, _kids, _tag
 
 CORPUS = os.path.join(VERIF, 'harness', 'corpus', 'C05')
@@ -61,7 +61,12 @@ class C05(DocCheck):
         'the ReadingOrder element; dangling references ignored; absent / empty / unordered / partial => document order; '
         'lines follow the regions; reading chosen: indices pairwise different (two entries with one index overwrite each '
         'other in the dict, the region that lost its entry is not covered and document order is kept — generated in a '
-        'separate stream judged only for "each region once"); sorted() is modelled by List.mergeSort')
+        'separate stream judged only for "each region once"); sorted() is modelled by List.mergeSort; correspondence at '
+        'the level of the statement: an unused reading order is compared by truthiness (None = {}: the statement fixes the '
+        'orders delivered, not the falsy value kept in scan.reading_order; entries of unknown ids may stay or go), two '
+        'rejections agree whatever the exception '
+        'class, extra scan.metadata keys are ignored, mutated ReadingOrder elements that are no reading-order group any '
+        'more are outside the quantifier (recorded only)')
     assumptions = [
         'CPython sorted() with an integer key returns the ascending (stable) order — List.mergeSort',
         'dict assignment / iteration order as in CPython >= 3.7 (association lists)',
@@ -172,7 +177,10 @@ class C05(DocCheck):
                 m = None
             if m is not None:
                 out.append(Case('mut', {'src': src, 'fname': 'ro_%d.xml' % next(seq), 'mut': m}, ['malformed', 'mut:' + m['op']]))
-        return out
+        # the quantifier: "reading-order groups listing each region at most once" in documents whose regions have
+        # distinct ids: a mutated ReadingOrder that is no such group any more (entry without index / regionRef,
+        # non-integer index, a region listed twice, group without id) is outside it — mirrored, recorded only
+        return mark_nonconformant(out)
 
     def nontrivial(self, case: Case) -> bool:
         src = case.input['src']
@@ -229,8 +237,12 @@ class C05(DocCheck):
                 bad('index-order', f'regions delivered {got_ids}; ascending index order is {want} (entries {entries})')
             if scan['regions_in_ro'] != want:
                 bad('get-in-reading-order', f'get_text_regions_in_reading_order() gives {scan["regions_in_ro"]}, expected {want}')
+            # the order that was used is kept: every entry of a delivered region, with its index, and nothing that is
+            # not in the file ("entries that reference unknown ids are ignored": they may stay or go)
             ro = scan['reading_order']
-            if ro is None or sorted(map(tuple, ro)) != sorted(entries):
+            used = sorted(e for e in entries if e[1] in set(doc_ids))
+            ro = ro or []
+            if sorted(e for e in map(tuple, ro) if e[1] in set(doc_ids)) != used or not set(map(tuple, ro)) <= set(entries):
                 bad('reading-order-kept', f'scan.reading_order is {ro}, entries are {entries}')
         else:
             if got_ids != doc_ids:
